@@ -36,6 +36,8 @@ CONSTANTS
     LDT0,          \* default logger period (ticks)
     Procs,         \* periodic processes (strings)
     ProcTopics(_), \* topics process p may publish on
+    ProcParams(_), \* parameters process p may set
+    FreeNodes,     \* TRUE: enable ProcPublish / NestedPublish (trace validation of real nodes)
     Delays(_),     \* re-arm delays of process p (a set: irregular rates, 0 = burst)
     Offsets(_),    \* first wake time of process p
     MaxPub,        \* bound on the number of messages
@@ -46,7 +48,8 @@ CONSTANTS
     DueFirst,      \* TRUE: external calls during the run only when no event is due now
     PostRunSetup,  \* TRUE: set-up attempts are also explored after Run
     Phased,        \* TRUE: canonical order -- successful set-up only before the first publish / init_params
-    DefVals        \* default values of user parameters
+    DefVals,       \* default values of user parameters
+    Sparse         \* TRUE (simulation only): a rejected call only right after a successful one
 
 VARIABLES
     pubs,     \* [AllTopics -> type | "none"]
@@ -129,6 +132,7 @@ MinTime   == CHOOSE m \in {queue[p] : p \in Sched} : \A p \in Sched : queue[p] >
 DueNow    == running /\ \E p \in Sched : queue[p] <= now
 External  == Idle /\ (DueFirst => ~DueNow)       \* guard of calls made by the test harness
 SetupOK   == Idle /\ (~running \/ PostRunSetup) /\ (DueFirst => ~DueNow)
+RejOK     == Sparse => act.err = "ok"       \* simulation aid: no two rejected calls in a row
 Fresh     == Phased => (nmsg = 0 /\ ~inited)     \* guard of a SUCCESSFUL set-up step
 
 (* relay graph: edge topic(s) -> out(s) for every relay s; acyclic iff no topic reaches itself *)
@@ -140,12 +144,11 @@ IsAcyclic(si) == LET E == Edges(si) IN
                  \A t \in AllTopics : t \notin Reach(E, {e[2] : e \in {x \in E : x[1] = t}}, Cardinality(AllTopics))
 
 (* push one publication of topic t (type already checked): code of Publisher.publish after
-   the isinstance test.  No subscriber list => return at once (no frame).               *)
+   the isinstance test.  A topic without subscribers gets a frame that ends at once.    *)
 Push(t) ==
     /\ nmsg' = nmsg + 1
     /\ sent' = [sent EXCEPT ![t] = Append(@, nmsg + 1)]
-    /\ stack' = IF subs[t] = <<>> THEN stack
-                ELSE <<[topic |-> t, msg |-> nmsg + 1, i |-> 1]>> \o stack
+    /\ stack' = <<[topic |-> t, msg |-> nmsg + 1, i |-> 1]>> \o stack
     /\ reent' = (reent \/ \E k \in 1..Len(stack) : stack[k].topic = t)
     /\ dirty' = IF t = PT THEN FALSE ELSE dirty
 
@@ -153,9 +156,11 @@ Push(t) ==
 CreatePublisher(t, ty) ==
     /\ SetupOK
     /\ IF locked THEN
+            /\ RejOK
             /\ act' = [a |-> "CreatePublisher", topic |-> t, ty |-> ty, err |-> "locked"]
             /\ UNCHANGED pubs
        ELSE IF pubs[t] # "none" THEN
+            /\ RejOK
             /\ act' = [a |-> "CreatePublisher", topic |-> t, ty |-> ty, err |-> "dup"]
             /\ UNCHANGED pubs
        ELSE /\ Fresh
@@ -172,6 +177,7 @@ CreateSubscriber(s, t, k, o, b) ==
     /\ k # "relay" => o = "none" /\ b = 0
     /\ LET info == [topic |-> t, kind |-> k, out |-> o, budget |-> b, since |-> Len(sent[t])] IN
        IF locked THEN
+            /\ RejOK
             /\ act' = [a |-> "CreateSubscriber", sub |-> s, topic |-> t, kind |-> k, out |-> o, budget |-> b, err |-> "locked"]
             /\ UNCHANGED <<subs, sinfo>>
        ELSE /\ Fresh
@@ -189,9 +195,11 @@ DeclareParam(p, o, v) ==
     /\ o = -2 \/ (o \in SubIds /\ sinfo[o].kind = "follower")
     /\ ~inited                                  \* domain assumption (see header)
     /\ IF locked THEN
+            /\ RejOK
             /\ act' = [a |-> "DeclareParam", p |-> p, owner |-> o, v |-> v, err |-> "locked"]
             /\ UNCHANGED <<decl, cache>>
        ELSE IF decl[p] # -1 THEN
+            /\ RejOK
             /\ act' = [a |-> "DeclareParam", p |-> p, owner |-> o, v |-> v, err |-> "dup"]
             /\ UNCHANGED <<decl, cache>>
        ELSE /\ Fresh
@@ -207,6 +215,7 @@ CreateLogger ==
     /\ SetupOK
     /\ ~inited                                  \* domain assumption (declares a parameter)
     /\ IF locked THEN
+            /\ RejOK
             /\ act' = [a |-> "CreateLogger", err |-> "locked"]
             /\ UNCHANGED <<subs, locked, decl, cache, lsince, queue>>
        ELSE /\ Fresh
@@ -239,9 +248,11 @@ SetParam(p, v) ==
     /\ nmsg < MaxPub
     /\ p \in AllParams
     /\ IF ~inited THEN
+            /\ RejOK
             /\ act' = [a |-> "SetParam", p |-> p, v |-> v, err |-> "noinit"]
             /\ UNCHANGED <<params, bus>>
        ELSE IF params[p] = -1 THEN
+            /\ RejOK
             /\ act' = [a |-> "SetParam", p |-> p, v |-> v, err |-> "nofield"]
             /\ UNCHANGED <<params, bus>>
        ELSE /\ act' = [a |-> "SetParam", p |-> p, v |-> v, err |-> "ok"]
@@ -259,7 +270,7 @@ Run ==
     /\ inited' = TRUE
     /\ Push(PT)
     /\ running' = TRUE
-    /\ queue' = [p \in AllProcs |-> IF p = "log" THEN queue[p] ELSE Offsets(p)]
+    /\ queue' = [p \in AllProcs |-> IF p = "log" \/ queue[p] >= 0 THEN queue[p] ELSE Offsets(p)]
     /\ act' = [a |-> "Run", err |-> "ok"]
     /\ UNCHANGED <<reg, cache, lsince, recv, lrecv, fired, now>>
     /\ UNCHANGED logv
@@ -272,6 +283,7 @@ PublishBegin(t, ty) ==
     /\ pubs[t] # "none"
     /\ t = PT => inited                          \* the only Params message is core._params
     /\ IF ty # pubs[t] THEN
+            /\ RejOK
             /\ act' = [a |-> "PublishBegin", topic |-> t, ty |-> ty, err |-> "type"]
             /\ UNCHANGED bus
        ELSE /\ act' = [a |-> "PublishBegin", topic |-> t, ty |-> ty, err |-> "ok"]
@@ -312,8 +324,7 @@ Deliver ==
                      /\ fired' = [fired EXCEPT ![s] = @ + 1]
                      /\ nmsg' = nmsg + 1
                      /\ sent' = [sent EXCEPT ![t] = Append(@, nmsg + 1)]
-                     /\ stack' = IF subs[t] = <<>> THEN rest
-                                 ELSE <<[topic |-> t, msg |-> nmsg + 1, i |-> 1]>> \o rest
+                     /\ stack' = <<[topic |-> t, msg |-> nmsg + 1, i |-> 1]>> \o rest
                      /\ reent' = (reent \/ \E k \in 1..Len(stack) : stack[k].topic = t)
                      /\ UNCHANGED <<cache, dirty>>
                  ELSE /\ stack' = rest
@@ -330,20 +341,64 @@ PublishEnd ==
     /\ UNCHANGED <<logv, timev>>
 
 (* ------------------------------------------------------------------ event loop *)
-(* process p (its timeout is the earliest; ties nondeterministic) publishes on t and
-   re-arms after d                                                                        *)
-Wake(p, t, d) ==
+(* process p (its timeout is the earliest; ties nondeterministic) wakes, performs one call
+   cmd = [k |-> "pub", topic |-> t] | [k |-> "set", p |-> name, v |-> value] | [k |-> "nop"]
+   and re-arms after d                                                                     *)
+Wake(p, cmd, d) ==
     /\ Idle /\ running
     /\ p \in Procs /\ queue[p] >= 0 /\ queue[p] = MinTime /\ queue[p] <= Horizon
     /\ nmsg < MaxPub
-    /\ t \in ProcTopics(p) /\ pubs[t] # "none" /\ t # PT
     /\ d \in Delays(p)
     /\ now' = queue[p]
     /\ queue' = [queue EXCEPT ![p] = queue[p] + d]
-    /\ Push(t)
-    /\ act' = [a |-> "Wake", proc |-> p, topic |-> t, d |-> d, t_now |-> queue[p], err |-> "ok"]
-    /\ UNCHANGED <<reg, cache, params, inited, lsince, recv, lrecv, fired, running>>
+    /\ IF cmd.k = "pub"
+       THEN /\ cmd.topic \in ProcTopics(p) /\ pubs[cmd.topic] # "none" /\ cmd.topic # PT
+            /\ Push(cmd.topic)
+            /\ act' = [a |-> "Wake", proc |-> p, k |-> "pub", topic |-> cmd.topic, d |-> d, t_now |-> queue[p], err |-> "ok"]
+            /\ UNCHANGED params
+       ELSE IF cmd.k = "set"
+       THEN /\ params[cmd.p] # -1                      \* running => inited; field exists
+            /\ params' = [params EXCEPT ![cmd.p] = cmd.v]
+            /\ Push(PT)
+            /\ act' = [a |-> "Wake", proc |-> p, k |-> "set", p |-> cmd.p, v |-> cmd.v, d |-> d, t_now |-> queue[p], err |-> "ok"]
+       ELSE /\ act' = [a |-> "Wake", proc |-> p, k |-> "nop", d |-> d, t_now |-> queue[p], err |-> "ok"]   \* e.g. an initial offset
+            /\ UNCHANGED <<params, stack, nmsg, sent, reent, dirty>>
+    /\ UNCHANGED <<reg, cache, inited, lsince, recv, lrecv, fired, running>>
     /\ UNCHANGED logv
+
+(* a process whose timeouts are not modelled (the real Simulator node) publishes at time tn:
+   legal iff no modelled event is due earlier.  Used by trace validation only.             *)
+ProcPublish(tn, t) ==
+    /\ FreeNodes
+    /\ Idle /\ running /\ tn >= now
+    /\ \A q \in Sched : queue[q] >= tn
+    /\ pubs[t] # "none" /\ t # PT
+    /\ now' = tn
+    /\ Push(t)
+    /\ act' = [a |-> "ProcPublish", topic |-> t, t_now |-> tn, err |-> "ok"]
+    /\ UNCHANGED <<reg, cache, params, inited, lsince, recv, lrecv, fired, running, queue>>
+    /\ UNCHANGED logv
+
+(* simpy.Process(core, gen) whose generator first waits `off`: trace validation only
+   (the exhaustive configurations start their processes at Run through Offsets)            *)
+StartProc(p, off) ==
+    /\ FreeNodes
+    /\ Idle /\ p \in Procs /\ queue[p] = -1 /\ off >= 0
+    /\ queue' = [queue EXCEPT ![p] = now + off]
+    /\ act' = [a |-> "StartProc", proc |-> p, off |-> off, err |-> "ok"]
+    /\ UNCHANGED <<reg, cache, params, inited, lsince, now, running>>
+    /\ UNCHANGED <<bus, logv>>
+
+(* a node of kind "free" (the real AttitudeEstimator) publishes from inside its callback *)
+NestedPublish(t) ==
+    /\ FreeNodes
+    /\ ~Idle /\ Top.i >= 2
+    /\ LET s == subs[Top.topic][Top.i - 1] IN s # 0 /\ sinfo[s].kind = "free"
+    /\ pubs[t] # "none" /\ t # PT
+    /\ Push(t)
+    /\ act' = [a |-> "NestedPublish", topic |-> t, err |-> "ok"]
+    /\ UNCHANGED <<reg, cache, params, inited, lsince, recv, lrecv, fired>>
+    /\ UNCHANGED <<logv, timev>>
 
 (* Logger.run: one row, then Timeout(dt.get()) *)
 LoggerRow ==
@@ -365,12 +420,18 @@ DoCreateSubscriber == \E t \in AllTopics, k \in Kinds, o \in Topics \cup {"none"
 DoDeclareParam     == \E p \in ParamNames, o \in {-2} \cup SubIds, v \in DefVals : DeclareParam(p, o, v)
 DoSetParam         == \E p \in AllParams : \E v \in (IF p = "ldt" THEN LdtVals ELSE Vals) : SetParam(p, v)
 DoPublishBegin     == \E t \in AllTopics, ty \in UserTypes \cup BadTypes \cup {"Params"} : PublishBegin(t, ty)
-DoWake             == \E p \in Procs : \E t \in ProcTopics(p), d \in Delays(p) : Wake(p, t, d)
+DoWake             == \E p \in Procs : \E d \in Delays(p) :
+                         \/ \E t \in ProcTopics(p) : Wake(p, [k |-> "pub", topic |-> t], d)
+                         \/ \E n \in ProcParams(p) : \E v \in (IF n = "ldt" THEN LdtVals ELSE Vals) :
+                                Wake(p, [k |-> "set", p |-> n, v |-> v], d)
 
 Next == \/ DoCreatePublisher \/ DoCreateSubscriber \/ DoDeclareParam \/ CreateLogger
         \/ InitParams \/ DoSetParam \/ Run
         \/ DoPublishBegin \/ Deliver \/ PublishEnd
         \/ DoWake \/ LoggerRow
+        \/ (FreeNodes /\ \E tn \in now..Horizon, t \in Topics : ProcPublish(tn, t))
+        \/ (FreeNodes /\ \E t \in Topics : NestedPublish(t))
+        \/ (FreeNodes /\ \E p \in Procs, off \in 0..Horizon : StartProc(p, off))
 
 Spec == Init /\ [][Next]_vars
 
